@@ -945,3 +945,60 @@ Proof.
   repeat (destruct Hx as [<-|Hx]; [|try contradiction]);
     repeat (destruct Hy as [<-|Hy]; [|try contradiction]); vm_compute; intros E; try reflexivity; discriminate E.
 Qed.
+
+(* the token-hash hypothesis of C11_toggle_warm_cache_tokens is SHARP inside C11's dispatch: if the token hash collides on
+   two token sequences over the same characters on which the enabled pattern rules report different lints, then on the
+   history [lint d1; lint d2] (one chunk each, at offset 0) the long-lived group answers d2 with d1's pattern lints, which
+   is not what the cache-free lint answers (C05_needs_tok_hash, restated for the gated per-rule dispatch) *)
+Theorem C11_tokens_need_tok_hash : forall (body kind srule HK : Type) (tok_hash : list (Cache.tok kind) -> N)
+    (run_struct : srule -> kdoc kind -> list (glint body)) (hk_eqb : HK -> HK -> bool) (cfg_hash : config -> HK)
+    (g : group srule (kprule body kind)) (cfg : config) (chars : text) (t1 t2 : list (Cache.tok kind)),
+  (forall a, hk_eqb a a = true) ->
+  tok_hash t1 = tok_hash t2 ->
+  let F := fun t => flat_map (fun e => if is_rule_enabled cfg (fst e) then snd e chars t else []) (g_patterns g) in
+  F t1 <> F t2 ->
+  let d1 := Cache.mkdoc [Some (Cache.mkchunk 0 chars t1)] [] 0%N in
+  let d2 := Cache.mkdoc [Some (Cache.mkchunk 0 chars t2)] [] 0%N in
+  let gc := g_with_cfg g cfg in
+  run_hist body (kdoc kind) (kchunk kind) srule (kprule body kind) k_chunks k_start run_struct k_run_pat
+    (text * N) HK kk_eqb hk_eqb (k_key tok_hash) cfg_hash g [HLint d1 []; HLint d2 []] cfg []
+  = [Ok (struct_part run_struct gc d1 ++ F t1); Ok (struct_part run_struct gc d2 ++ F t1)] /\
+  lint_group k_chunks k_start run_struct k_run_pat gc d2 = Ok (struct_part run_struct gc d2 ++ F t2) /\
+  struct_part run_struct gc d2 ++ F t1 <> struct_part run_struct gc d2 ++ F t2.
+Proof. exact tokens_need_tok_hash. Qed.
+Check C11_tokens_need_tok_hash : forall (body kind srule HK : Type) (tok_hash : list (Cache.tok kind) -> N)
+    (run_struct : srule -> kdoc kind -> list (glint body)) (hk_eqb : HK -> HK -> bool) (cfg_hash : config -> HK)
+    (g : group srule (kprule body kind)) (cfg : config) (chars : text) (t1 t2 : list (Cache.tok kind)),
+  (forall a, hk_eqb a a = true) ->
+  tok_hash t1 = tok_hash t2 ->
+  let F := fun t => flat_map (fun e => if is_rule_enabled cfg (fst e) then snd e chars t else []) (g_patterns g) in
+  F t1 <> F t2 ->
+  let d1 := Cache.mkdoc [Some (Cache.mkchunk 0 chars t1)] [] 0%N in
+  let d2 := Cache.mkdoc [Some (Cache.mkchunk 0 chars t2)] [] 0%N in
+  let gc := g_with_cfg g cfg in
+  run_hist body (kdoc kind) (kchunk kind) srule (kprule body kind) k_chunks k_start run_struct k_run_pat
+    (text * N) HK kk_eqb hk_eqb (k_key tok_hash) cfg_hash g [HLint d1 []; HLint d2 []] cfg []
+  = [Ok (struct_part run_struct gc d1 ++ F t1); Ok (struct_part run_struct gc d2 ++ F t1)] /\
+  lint_group k_chunks k_start run_struct k_run_pat gc d2 = Ok (struct_part run_struct gc d2 ++ F t2) /\
+  struct_part run_struct gc d2 ++ F t1 <> struct_part run_struct gc d2 ++ F t2.
+Print Assumptions C11_tokens_need_tok_hash.
+
+(* its hypotheses are satisfiable: take a token hash that only counts tokens; the characters `ab` once as one WORD token
+   (kind 1) and once as one non-word token (kind 2) collide; word_rule "ab" reports the first and not the second; the warm
+   group reports (0,2) for the second document as well, lint_group reports nothing *)
+Example C11_tokens_need_tok_hash_nonvacuous :
+  let th := fun ts : list (Cache.tok N) => N.of_nat (length ts) in
+  let g := q_build [QPattern (ex_key [66]) [97; 98]%N 2] in
+  let cfg := [(ex_key [66], Some true)] in
+  let d1 := Cache.mkdoc [Some (Cache.mkchunk 0 [97; 98]%N [exq_tok 1 0 2])] [] 0%N in
+  let d2 := Cache.mkdoc [Some (Cache.mkchunk 0 [97; 98]%N [exq_tok 2 0 2])] [] 0%N in
+  th [exq_tok 1 0 2] = th [exq_tok 2 0 2] /\
+  flat_map (fun e : key * kprule nat N => if is_rule_enabled cfg (fst e) then snd e [97; 98]%N [exq_tok 1 0 2] else []) (g_patterns g)
+    <> flat_map (fun e : key * kprule nat N => if is_rule_enabled cfg (fst e) then snd e [97; 98]%N [exq_tok 2 0 2] else []) (g_patterns g) /\
+  run_hist nat (kdoc N) (kchunk N) qsrule (kprule nat N) k_chunks k_start q_run_struct k_run_pat (text * N) (list (list N))
+    kk_eqb hk_eqb_calls (k_key th) hash_calls g [HLint d1 []; HLint d2 []] cfg []
+  = [Ok [mkglint (mkspan 0 2) 2]; Ok [mkglint (mkspan 0 2) 2]] /\
+  lint_group k_chunks k_start q_run_struct k_run_pat (g_with_cfg g cfg) d2 = Ok [].
+Proof.
+  cbv zeta. split; [reflexivity|]. split; [vm_compute; discriminate|]. split; vm_compute; reflexivity.
+Qed.
